@@ -81,7 +81,7 @@ fn shard() -> (usize, usize) {
 pub fn run_suite_with(em: &mut Emit, thorough: bool, abort: bool, body_drop: bool, c20: bool) {
     install_hook();
     let max_len = if thorough { 4 } else { 3 };
-    let per_prog_limit = if thorough { 4000 } else { 150 };
+    let per_prog_limit = if thorough { 700 } else { 150 };
     let mut total = 0usize;
     let mut exhausted = 0usize;
     let mut nprog = 0usize;
